@@ -29,12 +29,17 @@ def proj_for(prop):
 def late_answer_scenario(rng, reqs, kt):
     """The transmission itself takes time; the (first) answer arrives late in the waiting period that starts AFTER it."""
     rq = rng.choice([r for r in reqs if r.op in ('poll', 'set', 'mga')])
+    if rng.random() < 0.5:
+        rq = rng.choice([r for r in reqs if r.op == 'poll' and r.cid[0] == 6])       # configuration poll: response period, then ACK period
     delay = rng.choice([250, 1800])
     tx_dt = rng.choice([100, 200]) if delay == 250 else rng.choice([500, 900])
     frames, _ = S.good_answer(rng, rq, kt, 'ack')
     t_answer = delay - rng.choice([5, 20, tx_dt // 2])          # after the end of the transmission, still inside the period
     evs = [(None, t_answer - 2), (frames[0], 1)]
     if len(frames) == 2:
+        if rng.random() < 0.7:
+            # the ACK arrives late in ITS OWN waiting period (which starts when the response has been accepted)
+            evs.append((None, delay - rng.choice([5, 20, delay // 3])))
         evs.append((frames[1], 1))
     script = {'pending': [], 'attempts': [(True, evs)], 'idle': 13, 'drain': False, 'tx_dt': tx_dt, 'bad_cfg': ()}
     return {'retries': rng.choice([0, 1]), 'delay': delay, 'script': script, 'reqs': [rq], 'plan': [('good', 1, False)]}
